@@ -338,13 +338,12 @@ class Authorization(authorization.Authorization):
         if _client_id:
             kwargs["client_id"] = _client_id
 
-        _reg_res = _context.registration_response
-        if _reg_res:
-            for attr, param in IDT2REG.items():
-                try:
-                    kwargs[attr] = _reg_res[param]
-                except KeyError:
-                    pass
+        # What was registered, dynamically or statically (then it is what the client will use)
+        _reg_res = _context.registration_response or {}
+        for attr, param in IDT2REG.items():
+            _val = _reg_res.get(param) or _context.get_usage(param)
+            if _val:
+                kwargs[attr] = _val
 
         _allow = _context.allow.get("missing_kid")
         if _allow:
